@@ -4,6 +4,7 @@ import (
 	"go/ast"
 	"go/token"
 	"go/types"
+	"strings"
 
 	"golang.org/x/tools/go/ssa"
 
@@ -381,3 +382,89 @@ func ruleFallbackTruncationAlwaysTruncates(c *eng.Ctx) {
 }
 
 var _ = ir.FuncKey
+
+// ruleRetentionLooksUpThisMessagesKey (R08.1 extension): whether a keyed message is the latest one of its key is decided by a
+// lookup of THAT message's key in the scanned key offsets, made for that message. A lookup that is skipped for some keyed
+// messages (a remembered "same key as the previous message") decides them by another message's answer.
+func ruleRetentionLooksUpThisMessagesKey(c *eng.Ctx) {
+	fn := c.Fn(cl + "(*compactCleaner).cleanSegment")
+	if fn == nil {
+		return
+	}
+	scans := eng.CallsIn(fn, cl+"segmentScanner.Scan")
+	loads := eng.CallsIn(fn, "sync.Map.Load")
+	if len(scans) == 0 || len(loads) == 0 {
+		c.Unresolved("the Scan call and the keyOffsets.Load lookup of cleanSegment")
+		return
+	}
+	key := eng.Call(-1, cl+"SerializedMessage.Key")
+	noKey := eng.CmpEdges(fn, key, eng.NilConst, eng.EQ)
+	noKey = append(noKey, eng.CmpEdges(fn, eng.Len(key), eng.IntConst(0), eng.EQ)...)
+	var from []ssa.Instruction
+	for _, s := range scans {
+		from = append(from, s.(ssa.Instruction))
+	}
+	decided := func(in ssa.Instruction) bool {
+		if eng.IsCallTo(cl + "segment.WriteMessageSet")(in) {
+			return true
+		}
+		for _, s := range scans {
+			if in == s.(ssa.Instruction) {
+				return true // back at the scan: the message was dropped
+			}
+		}
+		return false
+	}
+	// error exits of the scan are not decisions about a message
+	var scanFailed []eng.Edge
+	for _, s := range scans {
+		s := s
+		errv := func(v ssa.Value) bool {
+			for _, x := range phiSources(v) {
+				if e, ok := x.(*ssa.Extract); ok && e.Tuple == s.Value() && e.Index == 2 {
+					return true
+				}
+			}
+			return false
+		}
+		scanFailed = append(scanFailed, eng.CmpEdges(fn, errv, eng.NilConst, eng.NE)...)
+		scanFailed = append(scanFailed, eng.CmpEdges(fn, errv, eng.Global("io.EOF"), eng.EQ)...)
+	}
+	q := &eng.PathQuery{Fn: fn, FromAfter: from, Target: decided, CutInstr: eng.IsCallTo("sync.Map.Load"), CutEdges: append(noKey, scanFailed...)}
+	w := q.Find()
+	c.Check(w == nil, "every keyed message is kept or dropped after a lookup of its own key", c.Pos(from[0]), "keyOffsets.Load(string(key)) on every path from the scan to the keep / drop decision (messages without a key excepted)", "cleanSegment can keep or drop a message that has a key without having looked that key up for it ("+w.String()+"): the answer remembered from the previous message is used — a nil \"previous key\" equals the empty key, so the newest message of the empty key is dropped when it comes first in its segment")
+}
+
+// ruleJoiningConsumerEntersEachStreamOnce (R12.5 extension): a consumer is pushed onto the subscriber heap of each stream of
+// its stream SET. The list a join request carries may name a stream twice; iterating that list pushes the consumer twice,
+// and the entry that stays behind when it leaves keeps taking partitions for a member that no longer exists.
+func ruleJoiningConsumerEntersEachStreamOnce(c *eng.Ctx) {
+	fn := c.Fn("server.(*consumerGroup).addConsumer")
+	if fn == nil {
+		return
+	}
+	set := eng.LoadNamed("streams", eng.Param("cons"))
+	ok := false
+	for _, rc := range eng.CallsIn(fn, "server.rangeStreamsOrdered") {
+		if a := rc.Common().Args; len(a) > 0 && set(a[0]) {
+			ok = true
+		}
+	}
+	for _, ml := range eng.MapLoops(fn) {
+		if set(ml.Range.X) {
+			ok = true
+		}
+	}
+	eng.Instrs(fn, func(in ssa.Instruction) {
+		if call, isCall := in.(*ssa.Call); isCall {
+			if g := call.Call.StaticCallee(); g != nil && g.Pkg != nil && (g.Pkg.Pkg.Path() == "maps" || strings.HasSuffix(g.Pkg.Pkg.Path(), "/exp/maps")) {
+				for _, a := range call.Call.Args {
+					if set(a) {
+						ok = true
+					}
+				}
+			}
+		}
+	})
+	c.Check(ok, "a joining consumer is pushed once per stream of its stream set", c.P.Pos(fn.Pos()), "the streams iterated are the keys of cons.streams", "addConsumer does not iterate the consumer's stream set (cons.streams): a list taken from the join request can name a stream twice, the consumer then sits twice in that stream's heap, and the entry left behind when it leaves is still handed partitions — partitions assigned to nobody who is a member")
+}
